@@ -11,7 +11,7 @@ import (
 
 func init() {
 	register(&Property{ID: "C11", Run: runC11,
-		Explain: "RPC splitting decided as exhaustiveness, grow-then-check discipline and gating: (R11.1) on the slow path of RPC.split every wire field of pb.RPC and pb.ControlMessage (enumerated from the struct tags on every run) is both read from the receiver and stored into the fragment being built; sub-messages rebuilt for a new fragment keep their non-split fields (every ControlIHave literal carries the TopicID of the IHAVE being split); copyRPC copies the whole struct and the control message; (R11.2) in the gossipsub router queue pushes happen only in doSendRPC, which is called only by sendRPC; (R11.3) sendRPC sends an RPC unsplit only behind `Size() < maxMessageSize` evaluated after all piggybacking, sends a fragment only behind the false edge of `Size() > maxMessageSize`, drops (and reports) on the true edge, and splits with the same limit; (R11.4) doDropRPC traces DROP_RPC and re-queues the control part; (R11.5) grow-then-check: every statement that adds content to the fragment (append / set) is followed on every path by a `Size() > limit` test before the next growth or yield, the overflow branch removes exactly what was added, yields, and restarts the fragment with that element; every yield result is honoured; a non-empty remainder is yielded at the end; (R11.6) no empty RPC is produced: every direct call of the iterator's consumer is evaluated only when the fragment's Size() is not zero; (R11.3, extended) inside the split loop sendRPC drops exactly the oversized fragment (never the RPC being split, whose control part the lazy iterator is still reading) and the loop over the fragments has no early exit. (audit round) R11.6 judges emptiness by content: the guard is a predicate reading messages, subscriptions and all five control lists; (R11.7) the hello packet is split or size-tested before it is written (known finding F37). NOT decided: that fragments fit the limit and carry each element exactly once and in order as an arithmetic fact per input (Size() arithmetic and slice bookkeeping).",
+		Explain: "RPC splitting decided as exhaustiveness, grow-then-check discipline and gating: (R11.1) on the slow path of RPC.split every wire field of pb.RPC and pb.ControlMessage (enumerated from the struct tags on every run) is both read from the receiver and stored into the fragment being built; sub-messages rebuilt for a new fragment keep their non-split fields (every ControlIHave literal carries the TopicID of the IHAVE being split); copyRPC copies the whole struct and the control message; (R11.2) in the gossipsub router queue pushes happen only in doSendRPC, which is called only by sendRPC; (R11.3) sendRPC sends an RPC unsplit only behind `Size() < maxMessageSize` evaluated after all piggybacking, sends a fragment only behind the false edge of `Size() > maxMessageSize`, drops (and reports) on the true edge, and splits with the same limit; (R11.4) doDropRPC traces DROP_RPC and re-queues the control part; (R11.5) grow-then-check: every statement that adds content to the fragment (append / set) is followed on every path by a `Size() > limit` test before the next growth or yield, the overflow branch removes exactly what was added, yields, and restarts the fragment with that element; every yield result is honoured; a non-empty remainder is yielded at the end; (R11.6) no empty RPC is produced: every direct call of the iterator's consumer is evaluated only when the fragment's Size() is not zero; (R11.3, extended) inside the split loop sendRPC drops exactly the oversized fragment (never the RPC being split, whose control part the lazy iterator is still reading) and the loop over the fragments has no early exit. (audit round) R11.6 judges emptiness by content: the guard is a predicate reading messages, subscriptions and all five control lists; (R11.7) the hello packet is split or size-tested before it is written (known finding F37). (R11.8) pushControl stores only where nothing is pending or merges with the pending GRAFT/PRUNE. NOT decided: that fragments fit the limit and carry each element exactly once and in order as an arithmetic fact per input (Size() arithmetic and slice bookkeeping).",
 		Assume:  []string{"gogo-generated Size() is exact", "struct tags `protobuf:` mark exactly the wire fields"},
 		Mutants: []Mutant{
 			{Name: "pushcontrol-overwrites", File: "gossipsub.go", Old: "\t\tif pending, ok := gs.control[p]; ok && pending != ctl {\n\t\t\tctl.Graft = append(pending.Graft, ctl.Graft...)\n\t\t\tctl.Prune = append(pending.Prune, ctl.Prune...)\n\t\t}\n", New: "", Expect: "R11.8"},
@@ -664,6 +664,31 @@ func runC11(c *RuleCtx) {
 				c.Check(guarded, "R11.6", split.Name, "consumer called only with a non-empty RPC"+suffix, cs.Call, "guarded by a test of the fragment's content", "an RPC without content can be handed to the consumer (it would be queued and sent): in front of an element that cannot fit by itself the accumulated fragment is empty, and a fragment holding only an empty control message has a non-zero Size(), so a size test does not catch it: "+why)
 			}
 			c.Min["R11.6"] = 1
+			// a wrapper around the consumer (the closure that skips content-less fragments) answers for the consumer:
+			// every caller reads `false` as "the consumer has stopped" and ends the split. So the wrapper may answer
+			// false only when the consumer was called and said so; when it skips a fragment it must answer true
+			for _, cs := range cc {
+				w := cs.Fn
+				if w == lit || w.Lit == nil {
+					continue // a direct call from the iterator body, not from a wrapper
+				}
+				wg := p.Graph(w)
+				consumerCall := AtomBool("consumer(fragment)", isYieldCall(cc))
+				k := 0
+				returnsIn(w, func(r *ast.ReturnStmt) {
+					if len(r.Results) != 1 {
+						return
+					}
+					k++
+					rv := p.R(w).Val(r.Results[0])
+					ok := rv.IsConst("true") || isYieldCall(cc)(rv) || wg.ExprEntails(r.Results[0], false, AtomWant{consumerCall, false})
+					suffix := ""
+					if k > 1 {
+						suffix = "#" + itoa(k)
+					}
+					c.Check(ok, "R11.6", split.Name, "skipping a fragment does not stop the split"+suffix, r, "the wrapper answers false only with the consumer's own false", "the wrapper around the consumer can answer false without the consumer having been called (for a fragment it skips): every `if !yield(...) { return }` reads that as \"the consumer has stopped\", so the split ends early and everything not yet yielded — including the element that cannot fit and should be reported as dropped — is lost")
+				})
+			}
 		}
 		c.Check(lastNonEmpty, "R11.5", split.Name, "non-empty remainder yielded at the end", split.Decl, "final `if Size() > 0 { yield }`", "the last fragment is not yielded (its contents are lost) or an empty RPC can be yielded")
 	} else if split != nil {
